@@ -29,13 +29,17 @@ EXPLANATION = (
 )
 ASSUMPTIONS = [
     "escaping filters are e/escape/forceescape/striptags/urlencode",
-    "intent/dimension/kind strings are out of scope of R1 (regexes that produce them cannot match a quote placeholder except kind=, which is recorded separately)",
+    "intent strings are out of scope of R1 (the regex that produces them admits keywords only)",
 ]
 
 SOURCES = {
     "initial": "line_to_variables restores literals into `initial` (FortranVariable.initial); param_dict values",
     "bindC": "FortranProcedure._parse_bind_C restores literals into self.bindC; process_attribs copies bind(...) text",
     "attribs": "ATTRIB_RE arm restores literals into `attr`, which process_attribs appends to .attribs",
+    # expression text: may contain relational operators (`dimension(merge(1,2,n<m))`, `kind=merge(4,8,n<m)`)
+    "dimension": "array specification as written in the declaration (an expression list)",
+    "kind": "kind selector expression as written (parse_type)",
+    "strlen": "length selector expression as written (parse_type)",
 }
 # restoration targets that were reviewed and are deliberately not sources, with reason
 NON_SOURCES = {
@@ -455,6 +459,85 @@ def r8_literal_continuation(ctx, rep):
     from . import c02
     c02.r5_continuation(ctx, rep)
 
+
+HTML_PROPERTIES = ("full_type", "full_declaration")      # properties whose value is HTML (they embed links) and is output raw
+EXPRESSION_ATTRS = ("kind", "strlen", "dimension", "attribs", "initial", "bindC")
+
+
+def _returns_unescaped_source(fn: ast.FunctionDef) -> List[ast.AST]:
+    """intra-procedural taint: source-text attributes of self (and `self.proto[1]`) that reach a return value of fn without
+    passing a call whose name contains `escape`"""
+    def is_escape(c: ast.Call) -> bool:
+        return "escape" in call_name(c).split(".")[-1].lower() or call_name(c).split(".")[-1] in ("e", "Markup.escape")
+    tainted: Set[str] = set()
+
+    def taint(e: ast.AST, extra: Set[str] = frozenset()) -> bool:
+        if isinstance(e, ast.Call) and is_escape(e):
+            return False
+        if isinstance(e, ast.Attribute) and isinstance(e.value, ast.Name) and e.value.id == "self" and e.attr in EXPRESSION_ATTRS:
+            return True
+        if isinstance(e, ast.Subscript) and ast.unparse(e.value) == "self.proto" and ast.unparse(e.slice) != "0":
+            return True
+        if isinstance(e, ast.Name):
+            return e.id in tainted or e.id in extra
+        if isinstance(e, (ast.ListComp, ast.GeneratorExp, ast.SetComp)):
+            ex = set(extra)
+            for g in e.generators:
+                if taint(g.iter, ex):
+                    ex |= {n.id for n in ast.walk(g.target) if isinstance(n, ast.Name)}
+            return taint(e.elt, ex)
+        if isinstance(e, ast.IfExp):
+            return taint(e.body, extra) or taint(e.orelse, extra)
+        if isinstance(e, ast.Compare):
+            return False
+        return any(taint(c, extra) for c in ast.iter_child_nodes(e))
+
+    bad: List[ast.AST] = []
+    for _ in range(3):
+        bad = []
+        for st in ast.walk(fn):
+            if isinstance(st, ast.Assign) and taint(st.value):
+                tainted |= {n.id for t in st.targets for n in ast.walk(t) if isinstance(n, ast.Name)}
+            elif isinstance(st, ast.AugAssign) and taint(st.value) and isinstance(st.target, ast.Name):
+                tainted.add(st.target.id)
+            elif isinstance(st, ast.For) and taint(st.iter):
+                tainted |= {n.id for n in ast.walk(st.target) if isinstance(n, ast.Name)}
+            elif isinstance(st, ast.Expr) and isinstance(st.value, ast.Call) and isinstance(st.value.func, ast.Attribute) and \
+                    st.value.func.attr in ("append", "extend", "insert") and isinstance(st.value.func.value, ast.Name) and \
+                    any(taint(a) for a in st.value.args):
+                tainted.add(st.value.func.value.id)
+            elif isinstance(st, ast.Return) and st.value is not None and taint(st.value):
+                bad.append(st)
+    return bad
+
+
+def r9_html_properties_escape(ctx, rep):
+    """full_type / full_declaration embed links, so the templates output them raw; whatever expression text of the
+    declaration they interpolate (kind, length, array specification, attributes) must be escaped where the string is built"""
+    py, j = ctx.py, ctx.j
+    n = 0
+    for cname, ci in py.classes.items():
+        # declarations of data objects: only these can contain expressions (a binding's attributes are keywords and names)
+        if ci.module != "sourceform" or not py.is_subclass(cname, "FortranVariable"):
+            continue
+        for p in HTML_PROPERTIES:
+            fn = ci.methods.get(p)
+            if fn is None or p not in ci.properties:
+                continue
+            n += 1
+            bad = _returns_unescaped_source(fn)
+            rep.ob(f"{cname}.{p} escapes the declaration text it embeds", not bad,
+                   "kind / length / array specification / attributes pass an escape call before they are joined with the type link"
+                   if not bad else
+                   f"`{ast.unparse(bad[0])[:70]}` returns source text as it was written: `integer(kind=merge(4,8,n<m)) :: k` puts `<m)) ...` "
+                   f"into the page as a tag and swallows the rest of the table cell", py.nloc(bad[0] if bad else fn), nontrivial=bool(bad))
+    if n < 2:
+        raise AnalysisError("HTML-valued declaration properties (full_type, full_declaration) not found")
+    ex = ast.parse("def full_type(self):\n    parts = []\n    if self.kind:\n        parts.append(f'kind={self.kind}')\n    return self.vartype + ', '.join(parts)\n").body[0]
+    ex2 = ast.parse("def full_type(self):\n    parts = []\n    if self.kind:\n        parts.append(f'kind={escape(self.kind)}')\n    return self.vartype + ', '.join(parts)\n").body[0]
+    if not _returns_unescaped_source(ex) or _returns_unescaped_source(ex2):
+        raise AnalysisError("r9_html_properties_escape: the taint matcher fails on its own examples")
+
 RULES = [
     RuleSpec("C18.R5", r5_selector_regexes, "kind/len selector regexes capture the whole expression", floor=2),
     RuleSpec("C18.R4", r4_literals_and_argument_attributes, "literal case is preserved; argument attributes are complete", floor=3),
@@ -464,5 +547,6 @@ RULES = [
     RuleSpec("C18.R3", r3_heading, "procedure heading assembly", floor=7),
     RuleSpec("C18.R6", r6_relurl_plain_text, "relurl rewrites links and absolute paths only", floor=1),
     RuleSpec("C18.R7", r7_pure_properties, "display properties are free of side effects", floor=8),
+    RuleSpec("C18.R9", r9_html_properties_escape, "HTML-valued declaration properties escape the text they embed", floor=2),
     RuleSpec("C18.R8", r8_literal_continuation, "continued literals keep their blanks (shared with C02.R5)", floor=3),
 ]
